@@ -12,7 +12,7 @@ PROP = {'areas': [{'area': 'engine',
             'extra': ['100'],
             'only_prop': 'C05',
             'quick': 12000,
-            'thorough': 1000000,
+            'thorough': 2000000,
             'tie_fields': ['out', 'ev', 'hq', 'q2in', 'ops']}],
  'coq_target': 'Properties/C05.vo',
  'modelled': 'protocol.rs ProtocolState: handle_user_event, handle_network_event (opened / closed / incoming data / write completion), service '
